@@ -414,7 +414,7 @@ def addSymlink (acc : Bytes → Nat) (ext : WExt) (name target : Bytes) (o : Fil
 def rawCopy (acc : Bytes → Nat) (ext : WExt) (src : FileData) (raw : Bytes) (name : Bytes) : StepG m Unit :=
   fun s => do
   let big := (if src.compressedSize ≥ src.uncompressedSize then src.compressedSize
-              else src.uncompressedSize) > ZIP64_BYTES_THR
+              else src.uncompressedSize) ≥ ZIP64_BYTES_THR
   let o : FileOptions := {
     method := src.method, level := none, time := src.time,
     permissions := src.unixMode, largeFile := big, encryptWith := none }
